@@ -1,4 +1,6 @@
 import Pycoin.Proofs.ECDSA
+import Pycoin.Proofs.Recover
+import Pycoin.Proofs.RFC6979
 import Pycoin.Proofs.CurveFacts.secp256k1
 import Pycoin.Proofs.CurveFacts.secp256r1
 /-!
@@ -66,7 +68,97 @@ theorem C01_sign_eq_first_nonce (genK : Nat → Int → Int → Except Err Int) 
       .ok (x % c.n, (ki * (z + d * (x % c.n) % c.n)) % c.n, y % 2 + (if x > c.n then 2 else 0)) :=
   sign_first_nonce genK bf d z k x y ki hz hk hm hki hr hs
 
+/-- public-key recovery (`possible_public_pairs_for_signature`) for `1 ≤ r, s < n`, `z ≠ 0`, any `y_parity`: never raises
+and returns only curve points under which the signature verifies.  PARTIAL: extra hypotheses `p ≡ 3 (mod 4)` (every
+Generator asserts it), `r³+ar+b ≠ 0` (no 2-torsion abscissa: true on curves of odd order) and "the curve points with
+abscissa `r` are annihilated by `n`" (automatic when `#E(F_p) = n`, which cannot be proved here). -/
+theorem C01_recover_sound_partial (h4 : c.p % 4 = 3) (bf bf' z r s : Int) (par : Option Int) (hz : z ≠ 0)
+    (hr1 : 1 ≤ r) (hr2 : r < c.n) (hs1 : 1 ≤ s) (hs2 : s < c.n) (hα : alphaOf c r ≠ 0)
+    (htors : ∀ y, containsXY c r y = true → (c.n : Int) • toPoint c (some (r, y)) = 0) :
+    ∃ l, possiblePublicPairsForSignature c bf z r s par = .ok l ∧
+      ∀ Q ∈ l, OnCurve c Q ∧ verify c bf' Q z r s = .ok true :=
+  recover_sound ok h4 bf bf' z r s par hz hr1 hr2 hs1 hs2 hα htors
+
+/-- recovery contains the signer: if `(r, s)` was made from the nonce point `k•G = (x, y)` with `1 ≤ x < n` (so `r = x`)
+and `s = k⁻¹(z + d·r)`, then the public key `d•G` (as the code computes it) is among the recovered keys, and with
+`y_parity = y & 1` it is the only one.  No torsion hypothesis is needed here: both candidates are `±k•G`. -/
+theorem C01_recover_complete (h4 : c.p % 4 = 3) (bf bf' bf'' d z k x y s : Int) (hz : z ≠ 0)
+    (hk : mulG c bf k = .ok (some (x, y))) (hx1 : 1 ≤ x) (hxn : x < c.n) (hs1 : 1 ≤ s) (hs2 : s < c.n)
+    (hs : (s : ZMod c.n) = (k : ZMod c.n)⁻¹ * ((z : ZMod c.n) + (d : ZMod c.n) * (x : ZMod c.n))) :
+    ∃ Q l, mulG c bf'' d = .ok Q ∧ possiblePublicPairsForSignature c bf' z x s none = .ok l ∧ Q ∈ l ∧
+      possiblePublicPairsForSignature c bf' z x s (some (y % 2)) = .ok [Q] :=
+  recover_complete ok h4 bf bf' bf'' d z k x y s hz hk hx1 hxn hs1 hs2 hs
+
 end Pycoin.Curve
+
+namespace Pycoin.Curve
+/-! ### the retry loop can walk into infinity (known finding `sign-retry-walks-into-infinity`) -/
+
+/-- y² = x³ + 41x + 40 over F₄₃, G = (0, 13), prime order 53 -/
+def toy53 : CurveParams := { p := 43, a := 41, b := 40, gx := 0, gy := 13, n := 53 }
+
+instance good_toy53 : Good toy53 := Good.of_int toy53 (by decide) (by decide)
+
+theorem ecdsaOk_toy53 : ECDSAOk toy53 :=
+  ⟨by decide, by decide, by decide, by decide, by unfold Reduced basis; decide,
+    order_of_eval toy53 (by decide) (by decide +kernel)⟩
+
+/-- REFUTED: "for every `d ∈ [1, n−1]` and `z ≠ 0` signing returns a signature" fails on a toy curve of prime order
+satisfying every hypothesis of the other theorems: with `d = 2`, `z = 25` the RFC 6979 nonce is `k = 51` (see the
+`#guard`), which gives `s = 0`; the retry `k += 1` tries `k = 52 = n − 1`, where `r = x(−G) = 0`, then `k = 53 = n`,
+where `k•G = ∞` and `p1[0] % n` raises `TypeError`.  Unreachable on 256-bit curves; replayed on the implementation
+by the corpus. -/
+theorem C01_sign_returns_refuted :
+    ¬ ∀ (c : CurveParams) [Good c], ECDSAOk c → ∀ (genK : Nat → Int → Int → Except Err Int) (d z : Int),
+        (∃ k, genK c.n d z = .ok k ∧ 1 ≤ k ∧ k < c.n) → 1 ≤ d → d < c.n → z ≠ 0 →
+        ∃ r s v, signWithRecid c 0 genK d z = .ok (r, s, v) := by
+  intro h
+  obtain ⟨r, s, v, hrs⟩ := h toy53 ecdsaOk_toy53 (fun _ _ _ => .ok 51) 2 25
+    ⟨51, rfl, by norm_num, by decide⟩ (by norm_num) (by decide) (by norm_num)
+  have : signWithRecid toy53 0 (fun _ _ _ => .ok 51) 2 25 = .error .type := by decide +kernel
+  rw [this] at hrs
+  cases hrs
+
+#guard Pycoin.RFC6979.deterministicGenerateK 53 2 25 matches .ok 51
+#guard Pycoin.RFC6979.signWithRecid toy53 0 2 25 matches .error .type
+
+end Pycoin.Curve
+
+namespace Pycoin.RFC6979
+open Pycoin Pycoin.Curve
+
+/-- `rfc6979.deterministic_generate_k(n, d, z)` is RFC 6979 §3.2 with HMAC-SHA256 (`Spec/RFC6979.lean`, written from
+the RFC text for arbitrary `qlen`): for every group order `n ≠ 0` of any bit length, every `0 ≤ d < n` and every
+32-byte hash `h1` (with `z` its big-endian integer) the two return the same nonce after the same number of retries.
+So the nonce is a function of both key and hash exactly as the RFC prescribes; that distinct `(d, z)` give distinct
+nonces is then a property of HMAC-SHA256 (assumption, not a theorem). -/
+theorem C01_deterministicK_eq_spec (fuel n : Nat) (hn : n ≠ 0) (d : Nat) (hd : d < n) (h1 : Bytes) (hh : h1.length = 32) :
+    deterministicGenerateKFuel fuel n (d : Int) (beNat h1 : Int) =
+      match Spec.RFC6979.generateK fuel n d h1 with
+      | some k => .ok (k : Int)
+      | none => .error .outOfFuel :=
+  deterministicK_eq_spec fuel n hn d hd h1 hh
+
+/-- the signature is the RFC 6979 deterministic ECDSA signature: when the RFC's nonce `k` (specification side) gives
+`r ≠ 0` and `s ≠ 0` — on the production curves always — `Generator.sign_with_recid(d, z)` returns
+`(x(k•G) mod n, k⁻¹(z + d·r) mod n, recid)`; on any curve (no hypothesis on `c` at all). -/
+theorem C01_sign_eq_rfc6979 (c : CurveParams) (bf : Int) (d : Nat) (hd : d < c.n) (h1 : Bytes) (hh : h1.length = 32)
+    (hz : (beNat h1 : Int) ≠ 0) (k : Nat) (hk : Spec.RFC6979.generateK defaultFuel c.n d h1 = some k)
+    (x y ki : Int) (hm : mulG c bf k = .ok (some (x, y))) (hki : inverseN c k = .ok ki)
+    (hr : x % c.n ≠ 0) (hs : (ki * ((beNat h1 : Int) + d * (x % c.n) % c.n)) % c.n ≠ 0) :
+    signWithRecid c bf d (beNat h1) =
+      .ok (x % c.n, (ki * ((beNat h1 : Int) + d * (x % c.n) % c.n)) % c.n, y % 2 + (if x > c.n then 2 else 0)) := by
+  have hk' : deterministicGenerateK c.n (d : Int) (beNat h1 : Int) = .ok (k : Int) := by
+    unfold deterministicGenerateK
+    rw [deterministicK_eq_spec defaultFuel c.n (by omega) d hd h1 hh, hk]
+  exact sign_first_nonce deterministicGenerateK bf d (beNat h1) k x y ki hz hk' hm hki hr hs
+
+/-! validation of spec and model on a published secp256k1 vector (evaluated, a test): d = 1,
+h1 = SHA-256("Satoshi Nakamoto"), k = 0x8F8A276C…5D15 -/
+#guard Spec.RFC6979.generateK 10 Pycoin.Gen.Curves.secp256k1.n 1 ((Pycoin.Hex.decode "a0dc65ffca799873cbea0ac274015b9526505daaaed385155425f7337704883e").getD []) == some 64924834324861491611287137376651443740140697549795241003556133838654234778901
+#guard (match deterministicGenerateK Pycoin.Gen.Curves.secp256k1.n 1 72759466100064397073952777052424474334519735946222029294952053344302920927294 with | .ok k => k == 64924834324861491611287137376651443740140697549795241003556133838654234778901 | _ => false)
+
+end Pycoin.RFC6979
 
 namespace Pycoin.Gen.Curves
 open Pycoin.Curve
